@@ -1001,11 +1001,22 @@ def range_of(t):
     return None
 
 
+# in-place changes that the rules account for explicitly before comparing structure (they look for the `upd` themselves: the tensor primitives of the
+# accumulation rules, `remove` / `append` of the record lists, field writes, dropout, the optimizer step) - and length-only bookkeeping.
+# Any other in-place change (`fill`, `reverse`, `swap`, `clear`, `truncate`, `sort`, ..) stays visible, so that a comparison with the expected
+# value fails instead of silently ignoring it (found by probing: `y.fill(0.5)` after the soft-max normalisation went unnoticed).
+_STRIPPABLE = ("add_inplace", "sub_inplace", "mul_inplace", "mean_inplace", "div_scalar_inplace", "remove", "append", "extend", "extend_from_slice", "dropout", "update",
+               "reserve", "reserve_exact", "shrink_to_fit", "shrink_to", "hadamard", "clamp")
+
+
 def strip_upd(t):
-    """drop `upd` wrappers (the value after an unrelated in-place change of one of its parts) for structural comparison"""
+    """drop `upd` wrappers of the kinds listed in _STRIPPABLE (and field writes) for structural comparison"""
     if isinstance(t, tuple):
         if t and t[0] == "upd":
-            return strip_upd(t[1])
+            nm = str(t[2]).split("@")[0]
+            if nm.startswith(("set:", "push:")) or nm.rsplit("::", 1)[-1] in _STRIPPABLE:
+                return strip_upd(t[1])
+            return ("upd", strip_upd(t[1])) + tuple(t[2:])
         return tuple(strip_upd(x) for x in t)
     return t
 
